@@ -157,5 +157,162 @@ Proof.
   cbn in Hp, Hr, Hfs, Hmd, Hef, Hex, Hsz, Hb, Hc, w, derived. subst.
   unfold transaction_start, put_or_assert, srcfg_or_assert, gq, setq, semit, bind, get, put, gets, modify, ret, raise, when.
   cbn. rewrite Hn. cbn. rewrite Hex, Hsz. cbn.
-  Show.
-Admitted.
+  pose proof (seq_bits_ok _ Hb) as Hb'.
+  assert (Hc' : (2 ^ sbits <=? sc) = false) by (apply Z.leb_gt; lia).
+  subst w derived large. unfold derived_seg_len in *.
+  destruct (zlen d =? 0) eqn:Ez; [apply Z.eqb_eq in Ez; rewrite Ez in *|];
+    cbn; rewrite Hb', Hc'; cbn;
+    unfold max_file_seg_len, hdr_len, fss_len, crc_len; cbn;
+    match goal with |- context [4294967295 <? ?z] => set (lg := 4294967295 <? z) in * end;
+    match goal with |- context [if ?a <? ?b then None else _] =>
+      destruct (a <? b) eqn:El;
+      [ apply Z.ltb_lt in El; destruct lg; destruct (r_crc r); lia | apply Z.ltb_ge in El ] end;
+    cbn; (eexists; split; [reflexivity|]); cbn;
+    repeat (split; [reflexivity|]); (split; [|repeat split; try reflexivity]).
+  all: clearbody lg; destruct lg; destruct (r_crc r); destruct (r_max_seg r) as [m|]; try lia.
+  all: match goal with |- (if ?a <? ?b then _ else _) = _ =>
+         destruct (a <? b) eqn:Em; [apply Z.ltb_lt in Em|apply Z.ltb_ge in Em]; lia end.
+Qed.
+
+Lemma transaction_start_too_small_partial : forall s p r sn dn d,
+  s_put s = Some p -> pr_names p = Some (sn, dn) -> q_rcfg (s_p s) = Some r ->
+  lookup (fs_s s) sn = Some (File d) -> sn <> [] -> q_file_size (s_p s) = Some 0 ->
+  q_md_only (s_p s) = false ->
+  (s_seq_bits s = 8 \/ s_seq_bits s = 16 \/ s_seq_bits s = 32) -> 0 <= s_seq_count s < 2 ^ s_seq_bits s ->
+  derived_seg_len r (Z.max (l_idw (s_cfg s)) (pr_dstw p)) (s_seq_bits s / 8) (4294967295 <? zlen d) < 0 ->
+  snd (transaction_start s) = Err E_VALUE.
+Proof.
+  intros s p r sn dn d Hp Hn Hr Hl Hne Hfs Hmd Hb Hc Hd.
+  unfold fs_s in *.
+  assert (Hex : fs_file_exists (e_fs (s_env s)) sn = true)
+    by (unfold fs_file_exists, exists_; rewrite Hl; reflexivity).
+  assert (Hsz : fs_file_size (e_fs (s_env s)) sn = Ok (zlen d))
+    by (unfold fs_file_size; rewrite Hl; reflexivity).
+  clear Hl.
+  destruct s as [cfg st step rdy qu q sb pt sc sbits env].
+  destruct q as [tid ckt akt akc ce pr sl fsz ef mdo fn rc cl conf]. destruct conf.
+  cbn in Hp, Hr, Hfs, Hmd, Hex, Hsz, Hb, Hc, Hd. subst.
+  unfold transaction_start, put_or_assert, srcfg_or_assert, gq, setq, semit, bind, get, put, gets, modify, ret, raise, when.
+  cbn. rewrite Hn. cbn. rewrite Hex, Hsz. cbn.
+  pose proof (seq_bits_ok _ Hb) as Hb'.
+  assert (Hc' : (2 ^ sbits <=? sc) = false) by (apply Z.leb_gt; lia).
+  unfold derived_seg_len in *.
+  destruct (zlen d =? 0) eqn:Ez; [apply Z.eqb_eq in Ez; rewrite Ez in *|];
+    cbn; rewrite Hb', Hc'; cbn;
+    unfold max_file_seg_len, hdr_len, fss_len, crc_len; cbn;
+    match goal with |- context [4294967295 <? ?z] => set (lg := 4294967295 <? z) in * end;
+    match goal with |- context [if ?a <? ?b then None else _] =>
+      destruct (a <? b) eqn:El;
+      [ reflexivity
+      | apply Z.ltb_ge in El; clearbody lg; destruct lg; destruct (r_crc r); lia ] end.
+Qed.
+
+(* the statement of c19_transaction_start, with room for an extra hypothesis on the start state *)
+Definition transaction_start_stmt (extra : src -> Prop) : Prop := forall s p r sn dn d,
+  extra s ->
+  s_put s = Some p -> pr_names p = Some (sn, dn) -> q_rcfg (s_p s) = Some r ->
+  lookup (fs_s s) sn = Some (File d) -> sn <> [] ->
+  q_file_size (s_p s) = Some 0 ->
+  (s_seq_bits s = 8 \/ s_seq_bits s = 16 \/ s_seq_bits s = 32) -> 0 <= s_seq_count s < 2 ^ s_seq_bits s ->
+  let w := Z.max (l_idw (s_cfg s)) (pr_dstw p) in
+  let large := 4294967295 <? zlen d in
+  let derived := derived_seg_len r w (s_seq_bits s / 8) large in
+  0 <= derived ->
+  exists s', transaction_start s = (s', Ok tt) /\
+    q_segment_len (s_p s') = (match r_max_seg r with Some m => Z.min m derived | None => derived end) /\
+    q_tid (s_p s') = Some (l_id (s_cfg s), s_seq_count s) /\
+    sc_seq (q_conf (s_p s')) = s_seq_count s /\ sc_seqw (q_conf (s_p s')) = s_seq_bits s / 8 /\
+    s_seq_count s' = s_seq_count s + 1 /\
+    sc_srcw (q_conf (s_p s')) = w /\ sc_dstw (q_conf (s_p s')) = w /\
+    sc_src (q_conf (s_p s')) = l_id (s_cfg s) /\ sc_dst (q_conf (s_p s')) = pr_dst p /\
+    sc_crc (q_conf (s_p s')) = r_crc r /\ sc_large (q_conf (s_p s')) = large /\
+    sc_mode (q_conf (s_p s')) = sc_mode (q_conf (s_p s)) /\ q_closure (s_p s') = q_closure (s_p s) /\
+    q_file_size (s_p s') = Some (zlen d) /\ q_empty_file (s_p s') = (zlen d =? 0) /\
+    log_s s' = EvTransaction (l_id (s_cfg s)) (s_seq_count s)
+                 (match pr_msgs p with None => None | Some l => originating_id l None false end) :: log_s s.
+
+Lemma transaction_start_partial_stmt :
+  transaction_start_stmt (fun s => q_md_only (s_p s) = false /\ q_empty_file (s_p s) = false).
+Proof.
+  intros s p r sn dn d [Hmd Hef] Hp Hn Hr Hl Hne Hfs Hb Hc.
+  exact (transaction_start_partial s p r sn dn d Hp Hn Hr Hl Hne Hfs Hmd Hef Hb Hc).
+Qed.
+
+(* counterexamples: neither extra hypothesis can be dropped (in particular the statement
+   of props/C19.v, transaction_start_stmt (fun _ => True), is false) *)
+Definition cx_cfg := mkLcfg 1 1 false false false false [] 0 [].
+Definition cx_r := mkRcfg 2 1 None 100 false false 0 0 1 1 1 false false 1 1.
+Definition cx_p := mkPut 2 1 None None (Some ([1], [2])) None.
+Definition cx_s (q : sparams) : src :=
+  mkSrc cx_cfg ST_BUSY SS_TRANSACTION_START 0 [] q None (Some cx_p) 0 16 (mkEnv 0 [([1], File [7])] false []).
+
+Lemma transaction_start_needs_empty_file_false :
+  ~ transaction_start_stmt (fun s => q_md_only (s_p s) = false).
+Proof.
+  intros H.
+  destruct (H (cx_s (init_sparams cx_cfg <| q_rcfg := Some cx_r |> <| q_empty_file := true |>))
+              cx_p cx_r [1] [2] [7]) as (s' & E & R); try reflexivity.
+  - discriminate.
+  - right; left; reflexivity.
+  - split; vm_compute; [discriminate|reflexivity].
+  - vm_compute; discriminate.
+  - vm_compute in E. inversion E; subst s'. vm_compute in R.
+    repeat match goal with H : _ /\ _ |- _ => destruct H end. congruence.
+Qed.
+
+Lemma transaction_start_needs_md_only_false :
+  ~ transaction_start_stmt (fun s => q_empty_file (s_p s) = false).
+Proof.
+  intros H.
+  destruct (H (cx_s (init_sparams cx_cfg <| q_rcfg := Some cx_r |> <| q_md_only := true |>
+                       <| q_conf ::= (fun c => c <| sc_large := true |>) |>))
+              cx_p cx_r [1] [2] [7]) as (s' & E & R); try reflexivity.
+  - discriminate.
+  - right; left; reflexivity.
+  - split; vm_compute; [discriminate|reflexivity].
+  - vm_compute; discriminate.
+  - vm_compute in E. inversion E; subst s'. vm_compute in R.
+    repeat match goal with H : _ /\ _ |- _ => destruct H end. congruence.
+Qed.
+
+Lemma transaction_start_spec_false : ~ transaction_start_stmt (fun _ => True).
+Proof.
+  intros H. apply transaction_start_needs_md_only_false.
+  intros s p r sn dn d _. exact (H s p r sn dn d I).
+Qed.
+
+(* the statement of c19_transaction_start_too_small is false as well without q_md_only = false:
+   with q_md_only = true the large-file flag is not recomputed, so a file longer than 2^32 - 1 bytes
+   with a stale sc_large = false fits although the derived length of the statement is negative *)
+Lemma transaction_start_too_small_false :
+  ~ (forall s p r sn dn d,
+      s_put s = Some p -> pr_names p = Some (sn, dn) -> q_rcfg (s_p s) = Some r ->
+      lookup (fs_s s) sn = Some (File d) -> sn <> [] -> q_file_size (s_p s) = Some 0 ->
+      (s_seq_bits s = 8 \/ s_seq_bits s = 16 \/ s_seq_bits s = 32) -> 0 <= s_seq_count s < 2 ^ s_seq_bits s ->
+      derived_seg_len r (Z.max (l_idw (s_cfg s)) (pr_dstw p)) (s_seq_bits s / 8) (4294967295 <? zlen d) < 0 ->
+      snd (transaction_start s) = Err E_VALUE).
+Proof.
+  intros H.
+  pose (d := repeat 0 (Z.to_nat 4294967296)).
+  assert (Hd : zlen d = 4294967296)
+    by (unfold zlen, d; rewrite repeat_length; apply Z2Nat.id; discriminate).
+  clearbody d.
+  pose (r := mkRcfg 2 1 None 15 false false 0 0 1 1 1 false false 1 1).
+  pose (s := mkSrc cx_cfg ST_BUSY SS_TRANSACTION_START 0 []
+               (init_sparams cx_cfg <| q_rcfg := Some r |> <| q_md_only := true |>)
+               None (Some cx_p) 0 16 (mkEnv 0 [([1], File d)] false [])).
+  specialize (H s cx_p r [1] [2] d eq_refl eq_refl eq_refl eq_refl).
+  assert (E : snd (transaction_start s) = Ok tt).
+  { unfold transaction_start, put_or_assert, srcfg_or_assert, gq, setq, semit, bind, get, put, gets, modify, ret, raise, when.
+    cbn. change (fs_file_exists [([1], File d)] [1]) with true.
+    change (fs_file_size [([1], File d)] [1]) with (@Ok oserr Z (zlen d)).
+    cbn. rewrite Hd. reflexivity. }
+  assert (Hx : snd (transaction_start s) = Err E_VALUE).
+  { apply H.
+    - discriminate.
+    - reflexivity.
+    - right; left; reflexivity.
+    - split; vm_compute; [discriminate|reflexivity].
+    - cbn. rewrite Hd. reflexivity. }
+  rewrite E in Hx. discriminate Hx.
+Qed.
